@@ -13,6 +13,8 @@ MCAlphabet == {
     D(TRUE, 20, 4, 20),        \* KEEPALIVE with a body: per-type bound
     D(TRUE, 22, 2, 22),        \* UPDATE shorter than its minimum
     D(TRUE, 19, 9, 19),        \* unknown type
-    D(TRUE, 4097, 2, 4097) }   \* longer than 4096: refused unless extended messages are negotiated
+    D(TRUE, 4096, 2, 4096),    \* exactly the classic maximum: acceptable
+    D(TRUE, 4097, 2, 4097),    \* longer than 4096: refused unless extended messages are negotiated
+    D(TRUE, 65535, 2, 65535) } \* exactly the extended maximum (RFC 8654): acceptable iff negotiated
 MCCutOffsets == {1, 15, 16, 17, 18, 19, 20}
 =============================================================================
